@@ -18,8 +18,9 @@ inductive Kind where
 deriving DecidableEq, Repr, Inhabited
 
 /-- A scalar Python object.  `text` is an injective rendering inside the kind; the remaining fields are oracle
-answers about CPython (not graphtage): `eqc` = class of Python `==` (hash-compatible), `str` = `str(obj)`,
-`num` = exact rational value of an int/bool/float, `dec` = utf-8 decoding of a bytes object. -/
+answers about CPython (not graphtage): `eqc` = class of `LeafNode.__eq__` on the payload (Python `==`, hash-compatible, with
+every NaN in the one class "nan": graphtage 8b61c77), `str` = `str(obj)`,
+`num` = exact rational value of an int/bool/float (denominator 0 = non-finite float: (0,0) NaN, (±1,0) ±inf), `dec` = utf-8 decoding of a bytes object. -/
 structure Scalar where
   kind : Kind
   text : String
@@ -213,7 +214,13 @@ def Scalar.sortKey (s : Scalar) : Nat × String :=
     (`LeafNode.__lt__`) -/
 def scalarLt (a b : Scalar) : Bool :=
   match a.num, b.num with
-  | some (p, q), some (p', q') => decide (p * (q' : Int) < p' * (q : Int))
+  | some (p, q), some (p', q') =>
+      -- denominator 0 encodes the non-finite floats: (0, 0) = NaN, (1, 0) = +inf, (-1, 0) = -inf.
+      -- Python: every `<` with a NaN operand is False; -inf < x for every other x except -inf; x < +inf likewise
+      if (q = 0 ∧ p = 0) ∨ (q' = 0 ∧ p' = 0) then false
+      else if q = 0 then decide (p < 0) && !(q' = 0 && decide (p' < 0))
+      else if q' = 0 then decide (0 < p')
+      else decide (p * (q' : Int) < p' * (q : Int))
   | _, _ =>
     if a.kind = .str ∧ b.kind = .str then decide (a.text < b.text)
     else if a.kind = .bytes ∧ b.kind = .bytes then decide (a.text < b.text)
